@@ -19,7 +19,7 @@ from mc.ref import report as refreport
 from mc.run import Stats, explore
 
 ASSUME = [
-    "projects: 9 of 3-6 tasks (containers, unschedulable, team, teams listed against the declaration order, ALAP, shared short ids, rates) + one task per day across the 2024/25 year end; task reports only; columns from {id, name, start, end, priority, cost}; quick: ordered selections of <= 2 columns, thorough: <= 3",
+    "projects: 10 of 3-6 tasks (containers, unschedulable, team, teams listed against the declaration order, rates inherited from groups and overridden by rate 0, allocations with alternatives, ALAP, shared short ids, rates) + one task per day across the 2024/25 year end; task reports only; columns from {id, name, start, end, priority, cost}; quick: ordered selections of <= 2 columns, thorough: <= 3",
     "effective time format: the report's `timeformat`, else the project's, else %Y-%m-%d",
     "cost = sum over the task's ledger entries of rate x booked seconds / 3600, two decimals, empty when zero; container cost cells are not judged",
     "rows: every task in declaration order; leaves only when `leaftasksonly true`; unscheduled tasks have empty start/end",
@@ -49,6 +49,14 @@ def projects():
     R3 = [{"id": "r1", "rate": 50.0}, {"id": "r2", "rate": 12.5}, {"id": "r3", "rate": 7.0}]
     ps.append({"resources": R3, "tasks": [{"id": "rev", "effort": 240, "alloc": ["r3", "r1"]}, {"id": "two", "effort": 120, "alloc": ["r2"], "raw": ["allocate r1"], "deps": ["rev"]},
                                           {"id": "mid", "effort": 180, "alloc": ["r2", "r3", "r1"], "deps": ["two"]}]})
+    # rates that arrive by inheritance from resource groups, overridden by 'rate 0' one and two levels down; an allocation with an
+    # alternative (the cost belongs to whoever did the work)
+    RG = [{"id": "dept", "rate": 40.0, "children": [{"id": "a1"}, {"id": "a0", "rate": 0}, {"id": "sub", "rate": 0, "children": [{"id": "s1"}, {"id": "s2", "rate": 15.0}]}]},
+          {"id": "ext", "rate": 90.0}]
+    ps.append({"resources": RG, "tasks": [T("p", 120, "a1"), T("q", 90, "a0"), {"id": "g", "children": [T("u", 60, "s1"), T("v", 150, "s2")]},
+                                          {"id": "team", "effort": 120, "alloc": ["a1", "a0", "s2"], "deps": ["p"]},
+                                          {"id": "alt", "effort": 180, "alloc": ["a1"], "alt": ["ext", "s2"], "prio": 300},
+                                          {"id": "alt2", "effort": 60, "alloc": ["ext"], "alt": ["a0"], "deps": ["q"]}]})
     # one task per calendar day across a year end (dates whose ISO week-year / week number differ from the calendar year's)
     ps.append({"start": "2024-12-27", "resources": [{"id": "r1", "rate": 8.0, "hours": [("mon - sun", ["9:00 - 17:00"])]}],
                "tasks": [{"id": "g", "children": [T(f"d{i}", 480, **({"deps": [f"!d{i - 1}"]} if i else {})) for i in range(8)]}]})
